@@ -16,7 +16,7 @@ Reading guide (`Model/PoolSpec.lean`):
 * `discByHolder s` = connections handed back with `release(discard=True)` whose
                      `_discard_conn` has not finished: the property's "counts as closed".
 -/
-import EdbVerif.Lemmas.PoolTrans3
+import EdbVerif.Lemmas.PoolOwn5
 
 namespace EdbVerif.C15
 open EdbVerif.Pool
@@ -44,6 +44,56 @@ theorem capacity (max : Nat) (evs : List (Env × Ev)) :
     (run (init max) evs).cur ≤ (run (init max) evs).max + discByHolder (run (init max) evs) :=
   (inv_run max evs).cap
 
+/-! ### Ownership
+
+`InvOwn` (`Model/PoolSpec.lean`) is proved for histories without
+`prune_inactive_connections` / `prune_all_connections` events (`Prims.NoPruneEv`): those two
+hold connections in a task-local list / drop lent connections on purpose (HA failover); the
+numeric invariant above covers them, the per-step oracle of the harness checks ownership on
+the real pool for them. -/
+
+/-- `InvNum ∧ InvQ ∧ InvOwn` is preserved by every transition other than the two pruning
+    entry points, for every environment choice … -/
+theorem own_step (s : State) (env : Env) (e : Ev) (h : (InvNum s ∧ InvQ s) ∧ InvOwn s)
+    (he : Prims.NoPruneEv e) : (InvNum (step s env e) ∧ InvQ (step s env e)) ∧ InvOwn (step s env e) :=
+  stepO h env e he
+
+/-- … hence holds along every such history, for every capacity and any number of databases. -/
+theorem own_run (max : Nat) (evs : List (Env × Ev)) (hev : ∀ x ∈ evs, Prims.NoPruneEv x.2) :
+    InvOwn (run (init max) evs) :=
+  (runO max evs hev).2
+
+/-- A connection is lent to at most one request at a time. -/
+theorem no_double_lend (max : Nat) (evs : List (Env × Ev)) (hev : ∀ x ∈ evs, Prims.NoPruneEv x.2) :
+    ((run (init max) evs).holders.map (·.conn)).Nodup :=
+  (own_run max evs hev).single
+
+/-- A lent connection is a connection of the block of the database it was requested for, and
+    is marked in use there. -/
+theorem lent_belongs (max : Nat) (evs : List (Env × Ev)) (hev : ∀ x ∈ evs, Prims.NoPruneEv x.2) :
+    ∀ h ∈ (run (init max) evs).holders,
+      ∃ b ∈ (run (init max) evs).blocks, b.name = h.name ∧ (h.conn, true) ∈ b.conns :=
+  (own_run max evs hev).held
+
+/-- An idle connection (on a stack) is a connection of that block, is not marked in use and
+    is lent to nobody; no connection is twice on a stack. -/
+theorem idle_is_free (max : Nat) (evs : List (Env × Ev)) (hev : ∀ x ∈ evs, Prims.NoPruneEv x.2) :
+    ∀ b ∈ (run (init max) evs).blocks, b.stack.Nodup ∧ ∀ c ∈ b.stack,
+      (c, false) ∈ b.conns ∧ ∀ h ∈ (run (init max) evs).holders, h.conn ≠ c := by
+  intro b hb
+  have h := runO max evs hev
+  exact ⟨h.2.stackNd b hb, fun c hc =>
+    ⟨h.2.stackIdle b hb c hc, idle_not_lent h.1.1.toWF h.2 hb hc⟩⟩
+
+/-- A connection belongs to one block, and `conn_acquired_num` is the number of connections
+    lent from the block. -/
+theorem block_counters (max : Nat) (evs : List (Env × Ev)) (hev : ∀ x ∈ evs, Prims.NoPruneEv x.2) :
+    (∀ b1 ∈ (run (init max) evs).blocks, ∀ b2 ∈ (run (init max) evs).blocks, ∀ c,
+        c ∈ b1.ids → c ∈ b2.ids → b1.uid = b2.uid) ∧
+    ∀ b ∈ (run (init max) evs).blocks,
+      b.acquired = (((run (init max) evs).holders.filter (·.name == b.name)).length : Int) :=
+  ⟨(own_run max evs hev).disj, (own_run max evs hev).acq⟩
+
 /-! ### Non-vacuity: a concrete run that exercises transfer, discard and failure -/
 
 /-- two databases, capacity 1: acquire on 0, connect, lend, second database
@@ -55,5 +105,7 @@ def exRun : List (Env × Ev) :=
 
 example : (run (init 1) exRun).holders = [⟨1, 1, 1⟩] ∧ (run (init 1) exRun).cur = 1 ∧
     (run (init 1) exRun).err = none := by decide
+
+example : InvOwn (run (init 1) exRun) := own_run 1 exRun (Prims.noPrune_all (by decide))
 
 end EdbVerif.C15
